@@ -276,6 +276,8 @@ class Builder:
                  and not (k == "cpa" and not self.allow_cpa)
                  and not (k == "block" and not self.allow_blocks)
                  and not (depth >= self.max_depth and k in ("function", "macro", "cpp_class", "block", "ct_add_test"))]
+        if not kinds:
+            return self.plain()
         k = r.choice(kinds)
         if k in ("function", "macro"):
             return self.definition(depth, k)
